@@ -33,6 +33,9 @@ pub enum Op {
     /// `push_many` with an exact-size iterator of `usize::MAX - k` items that is never meant to be consumed:
     /// applied only when the stack holds more than k elements, so that present + supplied does not fit in `usize`
     PushManyHuge(usize),
+    /// `try_extend` with an endless iterator (`iter::repeat`: its size hint is (usize::MAX, None)); never fits.
+    /// Applied only to stacks with a small maximum (an unlimited stack would rightly try to take the items)
+    TryExtendEndless(u8),
     SetMax(usize),
     Size,
     IsEmpty,
@@ -56,6 +59,7 @@ fn op_to_json(op: &Op) -> Value {
         Op::TryExtendLoose(l) => json!({"op":"try_extend_loose","list":l}),
         Op::TryExtendSlice(l) => json!({"op":"try_extend_from_slice","list":l}),
         Op::PushManyHuge(k) => json!({"op":"push_many_huge","k":k}),
+        Op::TryExtendEndless(v) => json!({"op":"try_extend_endless","v":v}),
         Op::SetMax(c) => json!({"op":"set_max","c":c.to_string()}),
         Op::Size => json!({"op":"size"}),
         Op::IsEmpty => json!({"op":"is_empty"}),
@@ -85,6 +89,7 @@ fn op_from_json(v: &Value) -> Option<Op> {
         "try_extend_loose" => Op::TryExtendLoose(list()),
         "try_extend_from_slice" => Op::TryExtendSlice(list()),
         "push_many_huge" => Op::PushManyHuge(v["k"].as_u64()? as usize),
+        "try_extend_endless" => Op::TryExtendEndless(v["v"].as_u64()? as u8),
         "set_max" => Op::SetMax(v["c"].as_str()?.parse().ok()?),
         "size" => Op::Size,
         "is_empty" => Op::IsEmpty,
@@ -183,6 +188,13 @@ pub fn apply_real(s: &mut Stack<u8>, op: &Op) -> Ret {
                 s.push_many((0..usize::MAX - k).map(|_| 0u8)).map(|()| Ret::Unit)
             }
         }
+        Op::TryExtendEndless(v) => {
+            if s.max_stack_size() > 100_000 {
+                Ok(Ret::Overflow)
+            } else {
+                s.try_extend(&mut std::iter::repeat(*v)).map(|()| Ret::Unit)
+            }
+        }
         Op::SetMax(c) => {
             s.set_max_stack_size(*c);
             Ok(Ret::Unit)
@@ -265,7 +277,7 @@ pub fn apply_ref(vals: &[u8], max: usize, op: &Op) -> Vec<(Ret, Vec<u8>, usize)>
             }
         }
         Op::PushMany(l) | Op::TryExtend(l, _) | Op::TryExtendLoose(l) | Op::TryExtendSlice(l) => insert(l),
-        Op::PushManyHuge(_) => vec![(Ret::Overflow, same(), max)],
+        Op::PushManyHuge(_) | Op::TryExtendEndless(_) => vec![(Ret::Overflow, same(), max)],
         Op::SetMax(c) => vec![(Ret::Unit, same(), *c)],
         Op::Size => vec![(Ret::Num(n), same(), max)],
         Op::IsEmpty => vec![(Ret::Bool(n == 0), same(), max)],
@@ -341,6 +353,7 @@ impl StackModel {
         ops.push(Op::Discard(usize::MAX));
         ops.push(Op::PushManyHuge(0));
         ops.push(Op::PushManyHuge(2));
+        ops.push(Op::TryExtendEndless(9));
         for l in lists(&self.values, self.bulk_len) {
             ops.push(Op::PushMany(l.clone()));
             ops.push(Op::TryExtend(l.clone(), false));
@@ -372,6 +385,7 @@ fn kind_of(op: &Op, r: &Ret) -> String {
         Op::TryExtendLoose(_) => "try_extend(loose hint)",
         Op::TryExtendSlice(_) => "try_extend_from_slice",
         Op::PushManyHuge(_) => "push_many(huge exact-size iterator)",
+        Op::TryExtendEndless(_) => "try_extend(endless iterator)",
         Op::SetMax(_) => "set_max",
         Op::Size => "size",
         Op::IsEmpty => "is_empty",
@@ -418,7 +432,7 @@ fn step_inner(pre: &Stack<u8>, op: &Op) -> (Stack<u8>, Ret, Option<String>) {
         ));
     }
     // intrinsic invariants, independent of the reference
-    let inserting = matches!(op, Op::Push(_) | Op::PushMany(_) | Op::TryExtend(..) | Op::TryExtendLoose(_) | Op::TryExtendSlice(_) | Op::PushManyHuge(_));
+    let inserting = matches!(op, Op::Push(_) | Op::PushMany(_) | Op::TryExtend(..) | Op::TryExtendLoose(_) | Op::TryExtendSlice(_) | Op::PushManyHuge(_) | Op::TryExtendEndless(_));
     let ok = matches!(ret, Ret::Unit);
     if problem.is_none() && inserting && ok && post_vals.len() > vals.len() && post_vals.len() > post_max
     {
@@ -460,7 +474,7 @@ impl Model for StackModel {
             let grow = match &op {
                 Op::Push(_) => 1,
                 Op::PushMany(l) | Op::TryExtend(l, _) | Op::TryExtendLoose(l) | Op::TryExtendSlice(l) => l.len(),
-                Op::PushManyHuge(_) => 0,
+                Op::PushManyHuge(_) | Op::TryExtendEndless(_) => 0,
                 _ => 0,
             };
             // keep the state space finite: contents never grow beyond max_len
@@ -586,6 +600,13 @@ fn apply_wide(s: &mut Stack<Wide>, op: &Op) -> Ret {
                 s.push_many((0..usize::MAX - k).map(|_| wide(0))).map(|()| Ret::Unit)
             }
         }
+        Op::TryExtendEndless(v) => {
+            if s.max_stack_size() > 100_000 {
+                Ok(Ret::Overflow)
+            } else {
+                s.try_extend(&mut std::iter::repeat(wide(*v))).map(|()| Ret::Unit)
+            }
+        }
         Op::SetMax(c) => {
             s.set_max_stack_size(*c);
             Ok(Ret::Unit)
@@ -613,6 +634,7 @@ fn wide_twin(run: &mut Run) -> u64 {
         alpha.push(Op::TryExtend(l, true));
     }
     alpha.push(Op::PushManyHuge(1));
+    alpha.push(Op::TryExtendEndless(8));
     for c in [0usize, 1, 2, 3, usize::MAX] {
         alpha.push(Op::SetMax(c));
     }
